@@ -113,7 +113,10 @@ partial def fiberUses : Expr → List FiberUse
 partial def loopUses : Stmt → List (String × List FiberUse)
   | .block ss => ss.flatMap loopUses
   | .for_ p e b =>
-    let v := match p with
+    let p' := match (HF.stripEnumerate e).2, p with
+      | true, .tuple [_, q] => q
+      | _, q => q
+    let v := match p' with
       | .tuple (.var x :: _) => x
       | .var x => x
       | _ => "?"
